@@ -61,6 +61,8 @@ TOPOLOGIES = {
     "diag-edge": [(0, 0, 0), (1, 1, 0)],
     "diag-vertex": [(0, 0, 0), (1, 1, 1)],
     "U": [(0, 0, 0), (1, 0, 0), (2, 0, 0), (0, 1, 0), (2, 1, 0)],
+    # a column of three with a row of two attached to its middle cell (cells 1 and 3 can be enclosed by graded blocks)
+    "cross5": [(0, 0, 0), (0, 0, 1), (0, 0, 2), (0, 1, 1), (0, 2, 1)],
 }
 
 
